@@ -3,6 +3,7 @@
 package cl
 
 import (
+	"math"
 	"math/big"
 
 	"github.com/ohler55/slip"
@@ -50,6 +51,8 @@ func (f *Lcm) Call(s *slip.Scope, args slip.List, depth int) slip.Object {
 		switch {
 		case num == 0:
 			return num
+		case num == math.MinInt64: // can not be negated as a fixnum
+			return bigLcm(s, args, depth)
 		case num < 0:
 			num = -num
 		}
